@@ -921,7 +921,9 @@ func genC19(ctx *Ctx, r *rng) []Case {
 		hc := Case{Name: "headers", Tag: "object-header"}
 		hc.add("st.clear")
 		for _, h := range []string{"", "blob", "blob ", "blob 3", "blob 3\x00ab", "blob 3\x00abcd", "blob 3abc\x00abc", "blob  3\x00abc", "blob +3\x00abc", "blob -0\x00", "blob 1_0\x00" + strings.Repeat("x", 10),
-			"blob 1_0\x00x", "blob \t3\x00abc", "blob \n3\x00abc", "blob 03\x00abc", "undefined 0\x00", "Blob 0\x00", "tag 0\x00", "blob 99999999999999999999\x00", "blob 9223372036854775808\x00", " blob 0\x00", "blob\x000\x00"} {
+			"blob 1_0\x00x", "blob \t3\x00abc", "blob \n3\x00abc", "blob 03\x00abc", "undefined 0\x00", "Blob 0\x00", "tag 0\x00", "blob 99999999999999999999\x00", "blob 9223372036854775808\x00", " blob 0\x00", "blob\x000\x00",
+			// sizes that must never drive an allocation: negative, and far larger than the file
+			"blob -1\x00hello", "blob -5\x00", "tree -1\x00", "blob 300000000000\x00hello", "blob 9223372036854775807\x00x", "commit 4294967296\x00", "blob 2147483648\x00abc"} {
 			c := []byte(h)
 			hc.add("st.put " + hx(sha1sum(c)) + " " + hx(c))
 			hc.add("obj.get " + hx(sha1sum(c)))
